@@ -275,6 +275,9 @@ func (r *stackRun) protocolPoint(node, kind int) {
 	r.mu.Unlock()
 	if hit && f != nil {
 		f()
+		// the caller (for a send: the goroutine of KeyGen itself) stays away from its next wait long enough for everything that
+		// reacts to the cancellation to have run: the cancellation falls strictly BETWEEN two waits
+		time.Sleep(5 * time.Millisecond)
 	}
 }
 func (g *recGen) KeyGen(ctx context.Context) ([]byte, error) { return g.inner.KeyGen(ctx) }
